@@ -593,6 +593,12 @@ def lme_cohort(k):
     unseen = individual("u0", 20, 1, False) + individual("u1", 21, 2 + k % 3) + individual("u2", 22, 4)
     # one unseen individual is given a missing value in the middle
     unseen = [(s, a, float("nan")) if (s == "u2" and n == len(unseen) - 2) else (s, a, y) for n, (s, a, y) in enumerate(unseen)]
+    # two more unseen individuals on the very same visit schedule as u2 (a trial-like protocol), with other values and other
+    # missing-value patterns: the conditional mean of each one is computed from ITS observed visits
+    ages_u2 = [a for (s, a, _) in unseen if s == "u2"]
+    for label, seed_i, missing_at in (("u3", 23, ()), ("u4", 24, (0, 2))):
+        rows = individual(label, seed_i, 4, False)
+        unseen += [(label, a, float("nan") if j in missing_at else y) for j, (a, (_, _, y)) in enumerate(zip(ages_u2, rows))]
     order = sorted(range(len(train)), key=lambda r: weyl(k, r, 30))
     train = [train[r] for r in order]
     both = train + unseen
@@ -816,12 +822,21 @@ def check_lme(k, cfg):
     for n, s in enumerate(subjects):
         ages = grid + extra
         req[s] = ages if n % 3 == 0 else (np.array(ages) if n % 3 == 1 else tuple(ages))
+    # one float64 array of ages shared by two subjects of the request (a common grid): it is the caller's, it stays as it is
+    shared_grid = np.array(grid + extra, dtype=np.float64)
+    if len(subjects) >= 2:
+        req[subjects[-1]] = shared_grid
+        req[subjects[-2]] = shared_grid
     try:
         est = model.estimate(req, ip)
         est_scalar = model.estimate({subjects[0]: 66.25}, ip)
     except Exception as e:  # noqa: BLE001
         problems.append((f"lme.estimate|{type(e).__name__}|{tag}", f"{type(e).__name__}: {e}", None, None))
         return None, False, problems, info
+    if not np.array_equal(shared_grid, np.array(grid + extra, dtype=np.float64)):
+        problems.append((f"lme.estimate|modifies the caller's array of ages|{tag}", "a float64 array shared by two subjects of the request", (grid + extra), shared_grid.tolist()))
+        for s_ in subjects[-2:]:
+            req[s_] = list(grid + extra)
     # the same individual parameters after a trip through a file (JSON, CSV): same trajectories
     for ext in ("json", "csv"):
         try:
